@@ -657,6 +657,43 @@ def rule_reinit(chk):
             else:
                 chk.violation("reinit", NUMINT, fq, "self.%s is None" % gen_attr, guard.lineno,
                               "the reuse condition does not test `self.%s is None`" % gen_attr)
+            # (a') the reuse test is evaluated on the state left by the PREVIOUS call: nothing it reads may be
+            # (re)assigned, directly or through the super() chain / a self-helper, before it is evaluated
+            if isinstance(guard.test, ast.Name):
+                evals = [st for st in pf.walk_no_nested(fn) if isinstance(st, ast.Assign) and len(st.targets) == 1
+                         and isinstance(st.targets[0], ast.Name) and st.targets[0].id == guard.test.id]
+            else:
+                evals = [guard]
+            g_cfg = cfgm.CFG(fn)
+            for ev_st in evals:
+                expr = ev_st.test if isinstance(ev_st, ast.If) else ev_st.value
+                reads = sorted({x.attr for x in ast.walk(expr) if pf.is_self_attr(x) and isinstance(x.ctx, ast.Load)})
+                en = g_cfg.node_of(ev_st)
+                if en is None:
+                    raise core.AnalysisError("%s: cannot place the reuse test in the CFG" % fq)
+                for attr in reads:
+                    inst = "%s:%s reuse test of self.%s reads self.%s as left by the previous call" % (
+                        NUMINT, fq, gen_attr, attr)
+                    culprit = None
+                    for n in g_cfg.nodes:
+                        if n.ast is None or n.id == en.id or n.kind not in ("stmt",) or isinstance(n.ast, ast.Try):
+                            continue
+                        if attr == gen_attr and isinstance(n.ast, ast.Assign) and isinstance(n.ast.value, ast.Constant) \
+                                and n.ast.value.value is None:
+                            continue  # dropping the object forces a rebuild: the safe direction
+                        if _may_assign(mod, fn, n.ast, attr, chains) and en.id in g_cfg.reachable(n.id):
+                            culprit = n.ast
+                            break
+                    if culprit is None:
+                        chk.ok("reinit", inst)
+                    else:
+                        chk.violation("reinit", NUMINT, fq, "self.%s assigned before the reuse test of self.%s" % (attr, gen_attr),
+                                      culprit.lineno,
+                                      "`%s` (re)assigns self.%s before the reuse condition `%s` is evaluated, so the "
+                                      "condition compares the new value with itself instead of with the state of the "
+                                      "previous call: a changed %s is never detected and the stale self.%s is reused" % (
+                                          batch.head_text(culprit)[:80], attr, pf.src(expr)[:80], attr, gen_attr),
+                                      instance=inst)
             # (b) what was compared is recorded on every normal path (here or in the super() chain)
             for p, state in sorted(compared.items()):
                 if not pf.is_self_attr(state):
@@ -807,6 +844,29 @@ def rule_reinit_reset(chk):
                           "generators (reused when `self.mol != mol` / `self.grids != grids` are false, i.e. for the "
                           "same, in-place modified objects) survive a geometry or basis change and energies / forces "
                           "are computed with the old atom positions and grids" % (hook, hook), instance=inst)
+
+
+def _may_assign(mod, fn, st, attr, chains, _depth=0):
+    """statement `st` of `fn` may (re)bind self.attr: directly, through super().<same method>() in one of the MRO
+    contexts, or through a self-helper"""
+    for n in ast.walk(st):
+        tg = n.targets if isinstance(n, ast.Assign) else ([n.target] if isinstance(n, (ast.AugAssign, ast.AnnAssign)) else [])
+        for t in tg:
+            for x in (t.elts if isinstance(t, (ast.Tuple, ast.List)) else [t]):
+                if pf.is_self_attr(x, attr):
+                    return True
+        if isinstance(n, ast.Call) and isinstance(n.func, ast.Attribute) and _depth < 3:
+            recv = n.func.value
+            if isinstance(recv, ast.Call) and pf.src(recv.func) == "super" and n.func.attr == fn.name:
+                for ch in chains:
+                    if ch and any(_may_assign(mod, ch[0], s2, attr, [ch[1:]], _depth + 1) for s2 in ch[0].body):
+                        return True
+            elif isinstance(recv, ast.Name) and recv.id == "self":
+                for c in mod.classes.values():
+                    h = pf.methods(c).get(n.func.attr)
+                    if h is not None and h is not fn and any(_may_assign(mod, h, s2, attr, [], _depth + 1) for s2 in h.body):
+                        return True
+    return False
 
 
 def _assigns_on_all_paths(mod, fn, attr, param, chain, _depth=0):
@@ -1057,6 +1117,33 @@ def _norm(e, defs, depth=0):
     return pf.src(e).replace(" ", "")
 
 
+def _ub_offset(e, i0, dn, body_assign, defs, depth=0):
+    """smallest provable o with e <= i0 + step + o (None: nothing provable); e is a chunk-end expression"""
+    if depth > 6 or e is None:
+        return None
+    if isinstance(e, ast.Name):
+        if e.id in body_assign:
+            return _ub_offset(body_assign[e.id], i0, dn, body_assign, defs, depth + 1)
+        if e.id in defs:
+            return _ub_offset(defs[e.id], i0, dn, body_assign, defs, depth + 1)
+        return None
+    if _norm(e, defs) in ("(%sAdd%s)" % (i0, dn), "(%sAdd%s)" % (dn, i0)):
+        return 0
+    if isinstance(e, ast.Call) and pf.call_name(e) in ("min", "np.minimum") and e.args:
+        offs = [_ub_offset(a, i0, dn, body_assign, defs, depth + 1) for a in e.args]
+        offs = [o for o in offs if o is not None]
+        return min(offs) if offs else None
+    if isinstance(e, ast.BinOp) and isinstance(e.op, (ast.Add, ast.Sub)) and isinstance(e.right, ast.Constant) \
+            and isinstance(e.right.value, int):
+        o = _ub_offset(e.left, i0, dn, body_assign, defs, depth + 1)
+        return None if o is None else (o + e.right.value if isinstance(e.op, ast.Add) else o - e.right.value)
+    if isinstance(e, ast.BinOp) and isinstance(e.op, ast.Add) and isinstance(e.left, ast.Constant) \
+            and isinstance(e.left.value, int):
+        o = _ub_offset(e.right, i0, dn, body_assign, defs, depth + 1)
+        return None if o is None else o + e.left.value
+    return None
+
+
 def rule_chunk_loop(chk):
     prog = pf.Program(chk.tree, [XE])
     mod = prog.module(XE)
@@ -1076,32 +1163,91 @@ def rule_chunk_loop(chk):
                nontrivial=False)
         return
     loops = [n for n in all_loops if isinstance(n, ast.For) and isinstance(n.iter, ast.Call)
-             and (pf.call_name(n.iter) or "").split(".")[-1] in ("range", "prange") and len(n.iter.args) == 3]
+             and (pf.call_name(n.iter) or "").split(".")[-1] in ("range", "prange") and 1 <= len(n.iter.args) <= 3]
     if len(loops) != 1:
-        raise core.AnalysisError("%s: %d loop(s), %d recognised as a chunk loop `for i0 in range(0, N, dn)`" % (
+        raise core.AnalysisError("%s: %d loop(s), %d recognised as a chunk loop over range(...)" % (
             fq, len(all_loops), len(loops)))
     lp = loops[0]
     tg = lp.target.elts if isinstance(lp.target, ast.Tuple) else [lp.target]
-    i0 = tg[0].id
-    defs = _single_defs(fn, exclude={i0})
-    a0, aN, adn = lp.iter.args
+    lv = tg[0].id
+    defs = _single_defs(fn, exclude={lv})
+    N = "%s.shape[0]" % x1
     problems = []
-    if _norm(a0, defs) != "0":
-        problems.append("the chunk loop starts at %s, not 0" % pf.src(a0))
-    N = _norm(aN, defs)
-    if N != "%s.shape[0]" % x1:
-        problems.append("the loop bound %s is not the sample count %s.shape[0]" % (pf.src(aN), x1))
-    dn = _norm(adn, defs)
+    body_assign = {n.targets[0].id: n.value for n in lp.body if isinstance(n, ast.Assign) and len(n.targets) == 1
+                   and isinstance(n.targets[0], ast.Name)}
+    args = lp.iter.args
+    i0 = lv
+    if len(args) == 3:
+        a0, aN, adn = args
+        start, bound, dn = _norm(a0, defs), _norm(aN, defs), _norm(adn, defs)
+    else:
+        # `for c in range(K): i0 = c * step` == `for i0 in range(0, K * step, step)`
+        K = _norm(args[-1], defs)
+        if len(args) == 2 and _norm(args[0], defs) != "0":
+            raise core.AnalysisError("%s: chunk counter does not start at 0; coverage not decided" % fq)
+        cand = [(k, v) for k, v in body_assign.items() if isinstance(v, ast.BinOp) and isinstance(v.op, ast.Mult)
+                and lv in (pf.src(v.left), pf.src(v.right))]
+        if len(cand) != 1:
+            raise core.AnalysisError("%s: the chunk start is not `<counter> * <step>`; coverage of [0, N) not decided" % fq)
+        i0, v = cand[0]
+        stepe = v.right if pf.src(v.left) == lv else v.left
+        dn = _norm(stepe, defs)
+        start, bound = "0", "(%sMult%s)" % (K, dn)
+    if start != "0":
+        problems.append("the first chunk starts at %s, not 0: samples [0, %s) are never evaluated" % (start, start))
+    short_bound, undecided_bound = None, False
+    # `for c in range(ceil(N / dn)): i0 = c * dn` visits exactly the starts of range(0, N, dn)
+    ceil_forms = {"(((%sAdd%s)Sub1)FloorDiv%s)" % (N, dn, dn), "((%sAdd(%sSub1))FloorDiv%s)" % (N, dn, dn)}
+    ceil_forms |= {"max(1,%s)" % c_ for c_ in list(ceil_forms)} | {"max(%s,1)" % c_ for c_ in list(ceil_forms)}
+    if bound in {"(%sMult%s)" % (c_, dn) for c_ in ceil_forms} | {"(%sMult%s)" % (dn, c_) for c_ in ceil_forms}:
+        bound = N
+    if bound != N:
+        # equal-size chunks: K chunks of step = N // K cover [0, K * (N // K)), which is [0, N) only if K divides N
+        m = None
+        for K_ in {bound[1:-1].split("Mult")[0], bound[1:-1].split("Mult")[-1]} if bound.startswith("(") and "Mult" in bound else ():
+            if dn == "(%sFloorDiv%s)" % (N, K_) and bound in ("(%sMult%s)" % (K_, dn), "(%sMult%s)" % (dn, K_)) \
+                    and K_ not in ("1", N):
+                m = K_
+        tail_ok = None
+        if m is not None:
+            # ... unless the last chunk is extended to the end: `i1 = N if c == K - 1 else i0 + step`
+            for k_, v_ in body_assign.items():
+                if isinstance(v_, ast.IfExp) and isinstance(v_.test, ast.Compare) and len(v_.test.ops) == 1:
+                    t_ = v_.test
+                    eq = isinstance(t_.ops[0], ast.Eq)
+                    ne = isinstance(t_.ops[0], (ast.NotEq, ast.Lt))
+                    last = {_norm(t_.left, defs), _norm(t_.comparators[0], defs)} == {lv, "(%sSub1)" % m}
+                    b_, o_ = _norm(v_.body, defs), _norm(v_.orelse, defs)
+                    inner = "(%sAdd%s)" % (i0, dn)
+                    if last and ((eq and b_ == N and o_ == inner) or (ne and b_ == inner and o_ == N)):
+                        tail_ok = k_
+        if tail_ok is not None:
+            pass
+        elif m is not None:
+            problems.append("the chunks cover [0, K * (N // K)) with K = %s and N = %s: K * (N // K) <= N with equality "
+                            "only when N %% K == 0, so the last N %% K samples are never evaluated (e.g. N = 2 * dn + 1)"
+                            % (m.replace("FloorDiv", "//").replace("Add", "+").replace("Sub", "-"), N))
+        else:
+            short_bound = None
+            mm = [c_ for c_ in ("1", "2", "3", "4") if bound == "(%sSub%s)" % (N, c_)]
+            if mm:
+                short_bound = mm[0]
+            undecided_bound = short_bound is None
+    else:
+        tail_ok = None
     uppers_ok = {"min(%s,(%sAdd%s))" % (N, i0, dn), "min((%sAdd%s),%s)" % (i0, dn, N), "(%sAdd%s)" % (i0, dn)}
     body_defs = dict(defs)
     upper_names = set()
     if len(tg) == 2 and (pf.call_name(lp.iter) or "").endswith("prange"):
         upper_names.add(tg[1].id)  # prange yields (start, stop) pairs
-    for n in lp.body:
-        if isinstance(n, ast.Assign) and len(n.targets) == 1 and isinstance(n.targets[0], ast.Name):
-            if _norm(n.value, defs) in uppers_ok:
-                upper_names.add(n.targets[0].id)
+    for k, v in body_assign.items():
+        if _norm(v, defs) in uppers_ok:
+            upper_names.add(k)
+    if tail_ok is not None:
+        upper_names.add(tail_ok)
     n_sub = 0
+    undecided_upper = []
+    all_within_step = True
     for n in ast.walk(lp):
         if isinstance(n, ast.Subscript) and isinstance(n.value, ast.Name) and n.value.id in bufs | {x1}:
             n_sub += 1
@@ -1109,8 +1255,18 @@ def rule_chunk_loop(chk):
             good = isinstance(sl, ast.Slice) and sl.step is None and sl.lower is not None and sl.upper is not None \
                 and _norm(sl.lower, {}) == i0 and (
                     (isinstance(sl.upper, ast.Name) and sl.upper.id in upper_names) or _norm(sl.upper, body_defs) in uppers_ok)
+            lower_ok = isinstance(sl, ast.Slice) and sl.step is None and sl.lower is not None and _norm(sl.lower, {}) == i0
+            off = _ub_offset(sl.upper, i0, dn, body_assign, defs) if (lower_ok and sl.upper is not None) else None
+            if off is None or off > 0:
+                all_within_step = False
             if not good:
-                problems.append("%s is not the chunk %s[%s:<chunk end>]" % (pf.src(n), n.value.id, i0))
+                if not lower_ok:
+                    problems.append("%s does not start at the chunk start %s" % (pf.src(n), i0))
+                elif off is not None and off < 0:
+                    problems.append("%s is at most %s + step - %d long while the loop advances by the full step: the "
+                                    "samples in between are never evaluated" % (pf.src(n), i0, -off))
+                else:
+                    undecided_upper.append(pf.src(n))
     if n_sub < 2:
         problems.append("the loop body no longer slices %s / %s by the chunk" % (x1, "/".join(sorted(bufs))))
     for n in ast.walk(lp):
@@ -1123,6 +1279,17 @@ def rule_chunk_loop(chk):
                         problems.append("`%s` overwrites the shared accumulation buffer instead of adding to it" % pf.src(n))
         if isinstance(n, ast.AugAssign) and pf.base_name(n.target) in bufs and not isinstance(n.op, ast.Add):
             problems.append("`%s` is not an additive accumulation" % pf.src(n))
+    if short_bound is not None:
+        if all_within_step:
+            problems.append("the loop starts chunks only below N - %s and no chunk is longer than the step %s, so whenever "
+                            "N - %s is a multiple of the step the last %s sample(s) are never evaluated (e.g. N = step + %s)"
+                            % (short_bound, dn, short_bound, short_bound, short_bound))
+        else:
+            undecided_bound = True
+    if not problems and (undecided_bound or undecided_upper):
+        raise core.AnalysisError("%s: coverage of [0, N) by the chunk loop is not decided (loop bound %s%s): neither one "
+                                 "of the accepted schemes nor a scheme with an exhibitable uncovered remainder" % (
+                                     fq, bound, ("; chunk end of " + ", ".join(undecided_upper[:2])) if undecided_upper else ""))
     if problems:
         chk.violation("chunk-loop", XE, fq, "chunk loop over %s" % x1, lp.lineno,
                       "; ".join(problems) + " (results must not depend on the chunk size)", instance=inst)
@@ -1351,11 +1518,35 @@ def mutants(tree):
                expect="reinit-reset"),
         Mutant("memoised control-point covariance not reset by set_kernel", DFTKERNEL, "", "", fn=_memo_kctrl,
                expect="memo-invalidate"),
+        # --- round 4 -----------------------------------------------------------------------------------
+        Mutant("equal-size chunks drop the remainder", XE,
+               "        for i0 in range(0, N, dn):\n            i1 = min(N, i0 + dn)\n",
+               "        nblk = -(-N // dn)\n        blk = N // nblk\n        for i0 in range(0, nblk * blk, blk):\n            i1 = i0 + blk\n",
+               expect="chunk-loop"),
+        Mutant("super() hook runs before the reuse test (NLDFNLOFNumInt)", NUMINT, "", "", fn=_super_first,
+               expect="reinit"),
+        Mutant("molecule recorded before the sdmx reuse test", NUMINT,
+               "        cond = self.sdmxgen is None\n        cond = cond or self.mol != mol\n",
+               "        old_mol, self.mol = self.mol, mol\n        cond = self.sdmxgen is None\n        cond = cond or self.mol != mol\n",
+               expect="reinit"),
         Mutant("chunk result overwritten", XE, "res[i0:i1] += k.dot(self.alpha)", "res[i0:i1] = k.dot(self.alpha)",
                expect="chunk-loop"),
         Mutant("chunk loop skips the first chunk", XE, "for i0 in range(0, N, dn):", "for i0 in range(dn, N, dn):",
                expect="chunk-loop"),
     ]
+
+
+def _super_first(text):
+    i = text.find("class NLDFNLOFNumInt(")
+    if i < 0:
+        return None
+    head, tail = text[:i], text[i:]
+    a = "        cond = self.nldfgen is None\n"
+    b = "        super().initialize_feature_generators(mol, grids, nspin)\n"
+    if a not in tail or b not in tail:
+        return None
+    tail = tail.replace(b, "", 1).replace(a, b + a, 1)
+    return head + tail
 
 
 def _persistent_dbuf(text):
